@@ -466,3 +466,52 @@ pub const NOT_NAMES: [&str; 16] = [
     "SHA-1", "SHA", "MD55", "", " sha1", "sha1 ", "sha 1", "blake2", "moo", "md", "sha2566", "xsha1",
     "sha1\n", "\tmd5", "rmd16", "BLAKE2s,MD5",
 ];
+
+/// Near misses of the six names at the byte level, none of which is a name
+/// under any reading: every single-bit flip of every byte of the name (in its
+/// canonical, lower- and upper-case spelling) that does not merely change the
+/// case of a letter - among them the control bytes 0x10-0x19 that `c | 0x20`
+/// folds onto the digits - and the name with one character replaced by a
+/// multi-byte one and cut back to the name's own length in bytes (what a
+/// length pre-check in bytes followed by a character-wise comparison lets
+/// through).
+pub fn near_names() -> Vec<String> {
+    let mut out: Vec<String> = vec![];
+    for canon in ["BLAKE2s", "MD5", "RMD160", "SHA1", "SHA256", "SHA512"] {
+        for name in [canon.to_string(), canon.to_ascii_lowercase(), canon.to_ascii_uppercase()] {
+            let b = name.as_bytes();
+            for i in 0..b.len() {
+                for bit in 0..8 {
+                    let c = b[i] ^ (1 << bit);
+                    if c >= 0x80 || c.eq_ignore_ascii_case(&b[i]) {
+                        continue;
+                    }
+                    let mut v = b.to_vec();
+                    v[i] = c;
+                    if let Ok(t) = String::from_utf8(v) {
+                        out.push(t);
+                    }
+                }
+            }
+            let chars: Vec<char> = name.chars().collect();
+            for i in 0..chars.len() {
+                for x in ['\u{e9}', '\u{20ac}', '\u{1f600}', '\u{212a}', '\u{17f}', '\u{130}'] {
+                    let mut t = String::new();
+                    for (k, c) in chars.iter().enumerate() {
+                        let c = if k == i { x } else { *c };
+                        if t.len() + c.len_utf8() > name.len() {
+                            break;
+                        }
+                        t.push(c);
+                    }
+                    if t.len() == name.len() && t != name {
+                        out.push(t);
+                    }
+                }
+            }
+        }
+    }
+    out.sort();
+    out.dedup();
+    out
+}
